@@ -66,7 +66,7 @@ def abstract(tokens):
 
 
 # spellings the extraction patterns of the culture do not cover (recorded findings, identified by the spelling)
-KNOWN = {'french': ('F27', lambda t: 'cents' in t.split() or t.startswith('un million')),
+KNOWN = {'french': ('F27', lambda t: 'cents' in t.split() or t.startswith('un million') or ('million' in t.split(' cent mille')[0] and ' cent mille' in t)),
          'italian': ('F28', lambda t: 'tré' in t),
          'portuguese': ('F29', lambda t: 'catorze' in t),
          'spanish': ('F26', lambda t: t.startswith('mil ') and 'millones' in t)}
@@ -106,7 +106,8 @@ def evaluate(items):
 
 
 SHAPES = sl('shapes', None)
-ALL_SHAPES = SHAPES if SHAPES is not None else shapes_for()
+KSAMPLE = sl('k', 400)
+ALL_SHAPES = SHAPES if SHAPES is not None else shapes_for(None, KSAMPLE)
 PART, NPARTS = sl('part', 0), sl('nparts', 1)
 SHAPES = ALL_SHAPES[PART::NPARTS]
 
@@ -168,7 +169,7 @@ def validate(slice_, timeout):
     known = KNOWN.get(LANG)
     keys = set(json.dumps(s) for s in ALL_SHAPES)
     n_ok = 0
-    for n in spell.sample_numbers(LIMIT, slice_.get('k', 400)):
+    for n in spell.sample_numbers(LIMIT, KSAMPLE):
         if n == 0:
             continue
         text = SPELL(n)
